@@ -276,6 +276,8 @@ def fail_readonly(ck, F, E):
             seen_variants.add(variant)
             key = "C07:FAIL-READONLY:%s:%s#%d" % (body.path.split("::")[-1], variant, sum(1 for x in errs if x[1] == variant and x[0] <= eb))
             bad = []
+            from lib import ok_or_sites
+            none_means_error = [x for (_oc, srcs) in ok_or_sites(body, variant) for x in srcs]
             for c in body.calls():
                 if c.bb == eb or not body.reaches(c.bb, eb):
                     continue
@@ -283,6 +285,10 @@ def fail_readonly(ck, F, E):
                 if not c.is_local:
                     rf = C16.receiver_field(body, c)
                     if rf and rf[0] == PROGRAM and rf[1] in CONTINUATION and c.callee.split("::")[-1] in MUTATORS:
+                        # `self.stack.pop().ok_or(Error)?`: the error is what a pop that returned None turns into
+                        if any(x is c for x in none_means_error) and c.callee.split("::")[-1] in ("pop", "take", "remove") and \
+                                not any(c.bb in blk for blk in body.natural_loops().values()):
+                            continue
                         # `let Some(x) = v.pop() else { return Err(..) }`: a pop that returned None removed nothing
                         in_loop = any(c.bb in blk for blk in body.natural_loops().values())
                         if in_loop or not (c.callee.split("::")[-1] in ("pop", "take", "remove") and _on_failure_arm_of(body, c, eb)):
